@@ -13,6 +13,7 @@ import (
 	"mellium.im/xmlstream"
 	"mellium.im/xmpp/internal/attr"
 	"mellium.im/xmpp/internal/marshal"
+	"mellium.im/xmpp/internal/respiter"
 	"mellium.im/xmpp/stanza"
 )
 
@@ -176,7 +177,7 @@ func iterIQ(ctx context.Context, iq xml.TokenReader, s *Session) (_ *xmlstream.I
 	if err != nil && err != io.EOF {
 		return nil, nil, err
 	}
-	return xmlstream.NewIter(resp), &start, nil
+	return respiter.New(resp), &start, nil
 }
 
 func unmarshalIQ(ctx context.Context, iq xml.TokenReader, v interface{}, s *Session) (e error) {
